@@ -37,8 +37,8 @@ def sdlObs (cm : CM) (cfg : SdlCF.Cfg) (bytes : List UInt8) (tail : Tail) : T :=
       let ds := ds.filter (fun d => !d.ext) ++ ds.filter (fun d => d.ext)
       .node "ok" [.node "l" (ds.map fun d => .node "d" [.atom d.kind, T.ofBytes d.name, T.ofBool d.ext])]
 
-def exeObs (cm : CM) (bytes : List UInt8) (tail : Tail) : T :=
-  let r := ExeCF.parseExe cm (SdlCF.sdlFuel bytes) bytes tail
+def exeObs (cm : CM) (cfg : ExeCF.Cfg) (bytes : List UInt8) (tail : Tail) : T :=
+  let r := ExeCF.parseExe cm cfg (SdlCF.sdlFuel bytes) bytes tail
   if r.2.oof then .atom "hang"
   else match r.1.2 with
     | some e => errT e
@@ -85,7 +85,12 @@ def handle (tb : Tables) (c impl : T) : String :=
         let cur := sdlObs cm { emptyTokenSpins := tb.sdlEmptyTokenSpins } bytes tail
         let alt := sdlObs cm { emptyTokenSpins := !tb.sdlEmptyTokenSpins } bytes tail
         verdict impl cur [{ flag := "D01", onInCur := tb.sdlEmptyTokenSpins, obs := alt }] specOk
-      | "exe" => verdict impl (exeObs cm bytes tail) [] specOk
+      | "exe" =>
+        let cur := exeObs cm { varTypeOptional := tb.exeVarTypeOptional } bytes tail
+        let alt := exeObs cm { varTypeOptional := !tb.exeVarTypeOptional } bytes tail
+        -- the scanner returns either way; the nil type only crashes later (validation), so this flag is never a
+        -- scanner-level deviation: it only selects the member of the family the scanner behaves as
+        verdict impl cur [{ flag := "D05", onInCur := false, obs := alt }] specOk
       | "val" => verdict impl (valObs cm bytes tail) [] specOk
       | _ => "bad-op"
   | .node "c03r" [sg] =>
@@ -101,6 +106,6 @@ def handle (tb : Tables) (c impl : T) : String :=
       | _ => "bad-op"
   | _ => "bad-op"
 
-def flags (tb : Tables) : List (String × Bool) := [("D01", tb.sdlEmptyTokenSpins)]
+def flags (tb : Tables) : List (String × Bool) := [("D01", tb.sdlEmptyTokenSpins), ("D05", tb.exeVarTypeOptional)]
 
 end Ggql.Driver.C03
